@@ -226,6 +226,13 @@ Definition bv (v : list Q) : list bigZ := map bq v.
 Definition bm (M : list (list Q)) : list (list bigZ) := map bv M.
 (* square root in fixed point: sqrt(a / 2^p) = sqrt(a * 2^p) / 2^p, rounded down *)
 Definition fix_sqrt (a : bigZ) : bigZ := BigZ.sqrt (BigZ.shiftl a fixp).
+(* literals of the case files: +-m * 2^e with m a primitive 63-bit integer (a float64 mantissa).  Case files
+   with the same data as stdlib Q literals spend 1 ms per number in elaboration (binary positives);
+   primitive integers are 8 times faster. *)
+Definition fp (m : Uint63.int) (e : Z) : bigZ := BigZ.shiftl (BigZ.Pos (BigN.N0 m)) (BigZ.of_Z (e + 320)).
+Definition fn (m : Uint63.int) (e : Z) : bigZ := BigZ.opp (fp m e).
+Arguments fp m%uint63_scope e%Z_scope.
+Arguments fn m%uint63_scope e%Z_scope.
 (* back to Q (debugging / replays) *)
 Definition fix_to_Q (a : bigZ) : Q := Qred (Qmake (BigZ.to_Z a) (Z.to_pos (2 ^ BigZ.to_Z fixp))).
 
@@ -252,50 +259,58 @@ Definition quad_f (A B : fmat) (c a : list F) (x u : list F) : list F :=
 Definition quad_jac (A : fmat) (a : list F) (x : list F) : fmat :=
   mkmat (mrows A) (mcols A) (fun i j =>
     mget A i j + (if Nat.eqb i j then (two * vget a i * vget x i) else zero)).
-Record qsys := { qA : list (list Q); qB : list (list Q); qC : list (list Q); qD : list (list Q);
-                 qc1 : list Q; qc2 : list Q; qa : list Q; qb : list Q }.
+Record qsys := { qA : fmat; qB : fmat; qC : fmat; qD : fmat;
+                 qc1 : list F; qc2 : list F; qa : list F; qb : list F }.
 Definition qsystem (s : qsys) : @system F :=
-  {| sf := quad_f (bm (qA s)) (bm (qB s)) (bv (qc1 s)) (bv (qa s));
-     sh := quad_f (bm (qC s)) (bm (qD s)) (bv (qc2 s)) (bv (qb s));
-     sA := fun x _ => quad_jac (bm (qA s)) (bv (qa s)) x;
-     sC := fun x _ => quad_jac (bm (qC s)) (bv (qb s)) x |}.
+  {| sf := quad_f (qA s) (qB s) (qc1 s) (qa s);
+     sh := quad_f (qC s) (qD s) (qc2 s) (qb s);
+     sA := fun x _ => quad_jac (qA s) (qa s) x;
+     sC := fun x _ => quad_jac (qC s) (qb s) x |}.
 
 (* one filter step: (index, system, Q, R, x, y, u, P, k, implementation's x', P', tolx, tolP) *)
-Definition fcase := (nat * qsys * list (list Q) * list (list Q) * list Q * list Q * list Q * list (list Q) * Q
-                     * list Q * list (list Q) * Q * Q)%type.
+Definition fcase := (nat * qsys * fmat * fmat * list F * list F * list F * fmat * F * list F * fmat * F * F)%type.
 Definition case_idx (c : fcase) : nat := match c with (i, _, _, _, _, _, _, _, _, _, _, _, _) => i end.
 Definition ekf_case_gen (at_pred : bool) (c : fcase) : bool :=
   match c with (_, s, Qm, Rm, x, y, u, P, _, ox, oP, tx, tP) =>
-    let '(mx, mP) := ekf_forward_gen pinvE at_pred (qsystem s) (bm Qm) (bm Rm) (bv x) (bv y) (bv u) (bm P) in
-    vclose (bq tx) mx (bv ox) && mclose (bq tP) mP (bm oP) end.
+    let '(mx, mP) := ekf_forward_gen pinvE at_pred (qsystem s) Qm Rm x y u P in
+    vclose tx mx ox && mclose tP mP oP end.
 Definition ukf_case_gen (by_cols same_set : bool) (c : fcase) : bool :=
   match c with (_, s, Qm, Rm, x, y, u, P, k, ox, oP, tx, tP) =>
-    match ukf_forward_gen pinvE msqrtE by_cols same_set (qsystem s) (bm Qm) (bm Rm) (bv x) (bv y) (bv u) (bm P) (bq k) with
-    | Some (mx, mP) => vclose (bq tx) mx (bv ox) && mclose (bq tP) mP (bm oP)
+    match ukf_forward_gen pinvE msqrtE by_cols same_set (qsystem s) Qm Rm x y u P k with
+    | Some (mx, mP) => vclose tx mx ox && mclose tP mP oP
     | None => false end end.
 Definition ekf_bad (cs : list fcase) : list nat := map case_idx (filter (fun c => negb (ekf_case_gen false c)) cs).
 Definition ukf_bad (cs : list fcase) : list nat := map case_idx (filter (fun c => negb (ukf_case_gen false false c)) cs).
-(* the documented / repaired variants (used to classify a disagreement, never to accept one) *)
+(* the documented / repaired variants (compared with the harness's mpmath oracle, never with the implementation) *)
 Definition ekf_documented_bad (cs : list fcase) : list nat := map case_idx (filter (fun c => negb (ekf_case_gen true c)) cs).
 Definition ukf_repaired_bad (cs : list fcase) : list nat := map case_idx (filter (fun c => negb (ukf_case_gen true true c)) cs).
-(* the model's output itself (for replays / debugging) *)
+(* the model's output itself (debugging) *)
 Definition to_Qv (v : list F) : list Q := map fix_to_Q v.
+
+(* a run of the implementation (one system, Q, R, k): every step (index, x, y, u, P, x', P', tolx, tolP) is
+   checked from the implementation's own previous state *)
+Definition rstep := (nat * list F * list F * list F * fmat * list F * fmat * F * F)%type.
+Definition run_bad (ukf : bool) (s : qsys) (Qm Rm : fmat) (k : F) (steps : list rstep) : list nat :=
+  map (fun st : rstep => match st with (i, _, _, _, _, _, _, _, _) => i end)
+      (filter (fun st : rstep => match st with (i, x, y, u, P, ox, oP, tx, tP) =>
+         negb (if ukf then ukf_case_gen false false (i, s, Qm, Rm, x, y, u, P, k, ox, oP, tx, tP)
+               else ekf_case_gen false (i, s, Qm, Rm, x, y, u, P, k, ox, oP, tx, tP)) end) steps).
 
 (* ---- PF *)
 (* particles: (index, x, P, eps, implementation's particles, tol) *)
-Definition pf_part_case := (nat * list Q * list (list Q) * list (list Q) * list (list Q) * Q)%type.
+Definition pf_part_case := (nat * list F * fmat * fmat * fmat * F)%type.
 Definition pf_part_ok (c : pf_part_case) : bool :=
-  match c with (_, x, P, eps, out, tol) => mclose (bq tol) (pf_particles msqrtE (bv x) (bm P) (bm eps)) (bm out) end.
+  match c with (_, x, P, eps, out, tol) => mclose tol (pf_particles msqrtE x P eps) out end.
 Definition pf_part_bad (cs : list pf_part_case) : list nat :=
   map (fun c : pf_part_case => match c with (i, _, _, _, _, _) => i end) (filter (fun c => negb (pf_part_ok c)) cs).
 (* log-likelihood differences l_i - l_0 (the normalising constant cancels):
    (index, system, R, y, u, particles xp, implementation's log_prob values, tol) *)
 Definition diffs (l : list F) : list F := match l with [] => [] | a :: _ => map (fun b => b - a) l end.
-Definition pf_lik_case := (nat * qsys * list (list Q) * list Q * list Q * list (list Q) * list Q * Q)%type.
+Definition pf_lik_case := (nat * qsys * fmat * list F * list F * fmat * list F * F)%type.
 Definition pf_lik_ok (c : pf_lik_case) : bool :=
   match c with (_, s, Rm, y, u, xp, out, tol) =>
-    let ye := map (fun p => sh (qsystem s) p (bv u)) (bm xp) in
-    vclose (bq tol) (diffs (pf_loglik pinvE (fun _ => zero) (bm Rm) (bv y) ye)) (diffs (bv out)) end.
+    let ye := map (fun p => sh (qsystem s) p u) xp in
+    vclose tol (diffs (pf_loglik pinvE (fun _ => zero) Rm y ye)) (diffs out) end.
 Definition pf_lik_bad (cs : list pf_lik_case) : list nat :=
   map (fun c : pf_lik_case => match c with (i, _, _, _, _, _, _, _) => i end) (filter (fun c => negb (pf_lik_ok c)) cs).
 (* resampling + estimate: (index, system, Q, u, particles xp, weights q, uniforms r, impl x', P', tol);
@@ -303,13 +318,13 @@ Definition pf_lik_bad (cs : list pf_lik_case) : list nat :=
    exact cumulative sums may then select different particles: undecided) *)
 Definition near_boundary (tol : F) (c : list F) (r : list F) : bool :=
   existsb (fun ri => existsb (fun a => fabs (a - ri) <=? tol) c) r.
-Definition pf_est_case := (nat * qsys * list (list Q) * list Q * list (list Q) * list Q * list Q * list Q * list (list Q) * Q)%type.
+Definition pf_est_case := (nat * qsys * fmat * list F * fmat * list F * list F * list F * fmat * F)%type.
 Definition pf_est_code (c : pf_est_case) : nat :=
   match c with (_, s, Qm, u, xp, q, r, ox, oP, tol) =>
-    if near_boundary (bq (1 # 1000000000)) (cumsum (bv q)) (bv r) then 2%nat else
-    let xs := map (fun p => sf (qsystem s) p (bv u)) (bm xp) in
-    match pf_estimate (bv q) xs (bv r) (bm Qm) with
-    | Some (mx, mP) => if vclose (bq tol) mx (bv ox) && mclose (bq tol) mP (bm oP) then 0%nat else 1%nat
+    if near_boundary (bq (1 # 1000000000)) (cumsum q) r then 2%nat else
+    let xs := map (fun p => sf (qsystem s) p u) xp in
+    match pf_estimate q xs r Qm with
+    | Some (mx, mP) => if vclose tol mx ox && mclose tol mP oP then 0%nat else 1%nat
     | None => 1%nat end end.
 Definition pf_est_codes (cs : list pf_est_case) : list (nat * nat) :=
   map (fun c : pf_est_case => match c with (i, _, _, _, _, _, _, _, _, _) => (i, pf_est_code c) end) cs.
